@@ -233,7 +233,7 @@ func (r *Recorder) Finish(w *World, info propInfo, tier string, seed int, outDir
 		"distinct_nontrivial": nontrivial,
 		"samples":             samples,
 		"checker_cmd":         strings.Join(os.Args, " "),
-		"trusted_base":        info.Trusted,
+		"trusted_base":        nonNilStrings(info.Trusted),
 		"instances_per_rule":  ruleCounts,
 		"floors":              floors,
 		"analysed":            r.Analysed,
@@ -242,6 +242,12 @@ func (r *Recorder) Finish(w *World, info propInfo, tier string, seed int, outDir
 		"whole_program":       w.Whole,
 		"notes":               r.Notes,
 		"exhaustive":          false,
+	}
+	if info.Assumptions == nil {
+		info.Assumptions = []string{}
+	}
+	if info.Trusted == nil {
+		info.Trusted = []string{}
 	}
 	ev := evidenceFile{PropertyID: r.Property, Tier: tier, Seed: seed, Level: "other", Coverage: cov,
 		Assumptions: info.Assumptions, WallS: time.Since(start).Seconds(), Violations: len(bad)}
@@ -269,6 +275,13 @@ func clip(s string, n int) string {
 	s = strings.ReplaceAll(s, "\n", " ")
 	if len(s) > n {
 		return s[:n] + "…"
+	}
+	return s
+}
+
+func nonNilStrings(s []string) []string {
+	if s == nil {
+		return []string{}
 	}
 	return s
 }
